@@ -1,0 +1,10 @@
+//go:build verif
+// +build verif
+
+package destination
+
+// VerifC14SetKeepSafeCap sets the initial capacity of the keepSafe buffers of
+// connections created afterwards (memory footprint only; the buffers grow on
+// demand). Verification builds only: the C14 driver creates thousands of
+// short-lived connections per process.
+func VerifC14SetKeepSafeCap(n int) { keepsafe_initial_cap = n }
